@@ -249,6 +249,31 @@ func runC07(c *core.Ctx) {
 		}
 		bounds = append(bounds, fmt.Sprintf("user functions called twice with every value in %d container wrappings (element, map value, map key, nested)", len(wraps)))
 	}
+	// 2c. control statements inside operands, elements, arguments, keys, conditions; values consumed by every kind of user
+	if ok {
+		ctrl := []string{"if true { return 1 }", "if true { break }", "if true { continue }", "for 1 { return 2 }", "for 1 { break }", "return", "return [1]", "if false { 1 } else { return \"s\" }", "for e = [1, 2] { if e == 2 { return e } }"}
+		ctxs := []string{"[%s]", "[1, %s, 3]", "{%s: 1}", "{1: %s}", "vfn(%s)", "vnamed(1, %s)", "len(%s)", "println(%s)", "%s + 1", "1 + %s", "-%s", "!%s", "va2[%s]", "%s[0]", "(%s).k", "va2[%s:]", "va2[0:%s]",
+			"if %s { 1 }", "for %s { break }", "for x = %s { 1 }", "x = %s", "vmbig[%s] = 1", "del(vmbig[%s])", "[%s] == [%s]", "[%s] < [%s]", "{1: [%s]} == {1: [%s]}", "sort([[%s], [%s]])", "max([%s], [%s])", "catch(%s)", "error(%s)", "quote(%s)", "str(%s)", "[[%s]] + [%s]", "{[%s]: 1}[[%s]]"}
+		n := 0
+		for _, cx := range ctxs {
+			for _, a := range ctrl {
+				src := strings.ReplaceAll(cx, "%s", a)
+				n++
+				do("control", prelude, src)
+				do("control", prelude, "func() { "+src+" }()")
+				do("control", prelude, "for 2 { "+src+" }")
+				do("control", prelude, "func() { for 2 { x9 = "+src+" } }()")
+			}
+		}
+		// references that outlive the variable they point to
+		for _, use := range []string{"g9", "g9 + 1", "g9[0]", "g9[0] = 2", "g9.k = 1", "len(g9)", "println(g9)", "for e = g9 { e }", "g9 = 3", "del(g9)", "[g9]", "{g9: 1}", "vfn(g9)", "g9 == g9", "g9++"} {
+			for _, val := range []string{"1", "[1, 2]", "{\"k\": 1}", "vabig", "vfn", "\"s\""} {
+				do("dangling", prelude, "g9 = "+val+"; killer = func() { del(g9) }; user = func() { y = g9; killer(); "+use+" }; user()")
+				do("dangling", prelude, "g9 = "+val+"; user = func() { inner = func() { del(g9) }; y = g9; inner(); "+use+"; g9 }; user(); user()")
+			}
+		}
+		bounds = append(bounds, fmt.Sprintf("%d control-statement-in-operand programs x 4 scopes; references read / written after the variable was deleted (15 uses x 6 values x 2 shapes)", n))
+	}
 	// 3a. the stateful image API: two images of every size combination x every image operation with boundary arguments
 	if ok {
 		dims := []int{0, 1, 2, 5}
